@@ -9,7 +9,8 @@ that re-read.
 import os, re
 root = os.path.join(os.path.dirname(os.path.abspath(__file__)), '..', '..', '..', 'lean', 'Rangers')
 src = open(os.path.join(root, 'Generated', 'Bls14Shape.lean')).read()
-defs = re.findall(r'/-- (.*?) -/\ndef (\w+) : List String := \[\n(.*?)\n\]', src, re.S)
+defs = [(d, n, b if b is not None else '') for d, n, b in
+        re.findall(r'/-- (.*?) -/\ndef (\w+) : List String := \[(?:\]|\n(.*?)\n\])', src, re.S)]
 out = ['''import Rangers.Generated.Bls14Consts
 import Rangers.Generated.Bls14Shape
 import Rangers.Model.Bls14Verify
@@ -30,7 +31,8 @@ open Rangers Rangers.Model.Bls14
 open Rangers.Generated.Bls14
 ''']
 for doc, name, body in defs:
-    out.append('/-- %s is what `Model/Bls14Verify.lean` / `Bls14G1.lean` transcribes. -/\ntheorem shape_%s : Shape.%s = [\n%s\n] := rfl\n' % (doc, name, name, body))
+    lit = '[\n%s\n]' % body if body else '[]'
+    out.append('/-- %s is what `Model/Bls14Verify.lean` / `Bls14G1.lean` transcribes. -/\ntheorem shape_%s : Shape.%s = %s := rfl\n' % (doc, name, name, lit))
 out.append('''/-- The constants are mutually consistent and are the ones the byte-level proofs rely on:
     `p2` spells `P`, `P ≡ 3 (mod 4)` (square roots by one exponentiation), `P` fits in
     `numBytes` bytes but `2P` does not (so `x + p` is the only alias), `Order < P`. -/
